@@ -120,10 +120,13 @@ theorem popEvent_frame (st : IState σ) :
     · split <;> exact ⟨rfl, rfl, rfl, rfl, rfl⟩
     · exact ⟨rfl, rfl, rfl, rfl, rfl⟩
 
-/-- `f` touches neither the step time, the listeners, the event queues nor the list of sent events -/
+/-- `f` touches neither the step time, the listeners, the event queues, the list of sent events
+    nor the recorded entry / idle times -/
 def QFrameFn (f : IState σ → IState σ) : Prop :=
   ∀ st, (f st).time = st.time ∧ (f st).listeners = st.listeners ∧ (f st).intQ = st.intQ ∧
-    (f st).extQ = st.extQ ∧ (f st).sentEvents = st.sentEvents
+    (f st).extQ = st.extQ ∧ (f st).sentEvents = st.sentEvents ∧
+    (f st).entryTime = st.entryTime ∧ (f st).idleTime = st.idleTime ∧
+    (∀ x, x ∈ (f st).config → x ∈ st.config)
 
 /-- what a relation must satisfy on the primitive steps -/
 structure Respects (R : RS σ ω → RS σ ω → Prop) : Prop where
@@ -161,7 +164,7 @@ theorem contract_of_prims {R : RS σ ω → RS σ ω → Prop} (hpre : PreOrd R)
   · exact Rel.pure hpre _
   · apply Rel.bind hpre
     · split
-      · apply hmod; intro st; exact ⟨rfl, rfl, rfl, rfl, rfl⟩
+      · apply hmod; intro st; exact ⟨rfl, rfl, rfl, rfl, rfl, rfl, rfl, fun _ h => h⟩
       · exact Rel.pure hpre _
     · intro _; exact hconds _ _
 
@@ -186,6 +189,13 @@ structure RespectsS (R : RS σ ω → RS σ ω → Prop) : Prop where
   raise : ∀ m : Event, Rel R (raiseMeta env m)
   contract : ∀ (kind : CondKind) (obj : Obj) (ev : Option Event), Rel R (evalContract env kind obj ev)
   send : ∀ ev : Sent, Rel R (sendOne env ev)
+  /-- the assignment that makes a state active and records its entry time -/
+  markEnter : ∀ n : Name, Rel R (M.modify (fun st => { st with
+      config := if st.config.contains n then st.config else st.config ++ [n],
+      entryTime := assocSet n st.time st.entryTime,
+      idleTime := assocSet n st.time st.idleTime }) : M σ ω Unit)
+  /-- the assignment that records that a state fired a transition -/
+  markFire : ∀ n : Name, Rel R (M.modify (fun st => { st with idleTime := assocSet n st.time st.idleTime }) : M σ ω Unit)
 
 /-- … and so is consuming the selected event and announcing it -/
 structure RespectsQ (R : RS σ ω → RS σ ω → Prop) : Prop extends RespectsS env R where
@@ -220,6 +230,8 @@ theorem Respects.toQ {R : RS σ ω → RS σ ω → Prop} (H : Respects env R) :
         · exact H.raise _
         · exact Rel.pure H.pre _
     · intro _; apply H.modify; intro st; exact ⟨rfl, rfl⟩
+  markEnter n := by apply H.modify; intro st; exact ⟨rfl, rfl⟩
+  markFire n := by apply H.modify; intro st; exact ⟨rfl, rfl⟩
   consume := by
     unfold consumeOne
     apply Rel.bind H.pre (Rel.get H.pre); intro st
@@ -248,7 +260,7 @@ theorem rel_stateObjs : ∀ ns : List Name, Rel R (stateObjs env ns)
 theorem rel_runCode (k : ExecKind) (ev : Option Event) : Rel R (runCode env k ev) := by
   unfold runCode
   apply Rel.bind H.pre (Rel.get H.pre); intro st
-  apply Rel.bind H.pre (by apply H.modify; intro st; exact ⟨rfl, rfl, rfl, rfl, rfl⟩); intro _
+  apply Rel.bind H.pre (by apply H.modify; intro st; exact ⟨rfl, rfl, rfl, rfl, rfl, rfl, rfl, fun _ h => h⟩); intro _
   split
   · exact Rel.pure H.pre _
   · exact Rel.throw H.pre _
@@ -260,7 +272,7 @@ theorem rel_saveMemory (cfg0 : List Name) (s : StateDef) : ∀ chs : List Name, 
     split
     · exact Rel.throw H.pre _
     · exact rel_saveMemory cfg0 s rest
-    · apply Rel.bind H.pre (by apply H.modify; intro st; exact ⟨rfl, rfl, rfl, rfl, rfl⟩)
+    · apply Rel.bind H.pre (by apply H.modify; intro st; exact ⟨rfl, rfl, rfl, rfl, rfl, rfl, rfl, fun _ h => h⟩)
       intro _; exact rel_saveMemory cfg0 s rest
 
 theorem rel_exitState (cfg0 : List Name) (step : Micro) (s : StateDef) : Rel R (exitState env cfg0 step s) := by
@@ -278,7 +290,7 @@ theorem rel_exitState (cfg0 : List Name) (step : Micro) (s : StateDef) : Rel R (
     · exact Rel.throw H.pre _
     · exact Rel.pure H.pre _
   intro _
-  apply Rel.bind H.pre (by apply H.modify; intro st; exact ⟨rfl, rfl, rfl, rfl, rfl⟩); intro _
+  apply Rel.bind H.pre (by apply H.modify; intro st; exact ⟨rfl, rfl, rfl, rfl, rfl, rfl, rfl, fun _ h => (List.mem_filter.mp h).1⟩); intro _
   apply Rel.bind H.pre (H.contract _ _ _); intro _
   apply Rel.bind H.pre (H.raise _); intro _
   exact Rel.pure H.pre _
@@ -288,7 +300,7 @@ theorem rel_enterState (step : Micro) (s : StateDef) : Rel R (enterState env ste
   apply Rel.bind H.pre (H.contract _ _ _); intro _
   apply Rel.bind H.pre (H.emit _ rfl); intro _
   apply Rel.bind H.pre (rel_runCode H _ _); intro sent
-  apply Rel.bind H.pre (by apply H.modify; intro st; exact ⟨rfl, rfl, rfl, rfl, rfl⟩); intro _
+  apply Rel.bind H.pre (H.markEnter _); intro _
   apply Rel.bind H.pre (H.raise _); intro _
   exact Rel.pure H.pre _
 
@@ -300,7 +312,7 @@ theorem rel_fireTransition (step : Micro) (t : Trans) : Rel R (fireTransition en
   apply Rel.bind H.pre (rel_runCode H _ _); intro sent
   apply Rel.bind H.pre (H.contract _ _ _); intro _
   apply Rel.bind H.pre (H.contract _ _ _); intro _
-  apply Rel.bind H.pre (by apply H.modify; intro st; exact ⟨rfl, rfl, rfl, rfl, rfl⟩); intro _
+  apply Rel.bind H.pre (H.markFire _); intro _
   apply Rel.bind H.pre (H.raise _); intro _
   exact Rel.pure H.pre _
 
@@ -367,7 +379,7 @@ theorem rel_computeSteps : Rel R (computeSteps env) := by
   unfold computeSteps
   apply Rel.bind H.pre (Rel.get H.pre); intro st
   split
-  · apply Rel.bind H.pre (by apply H.modify; intro st; exact ⟨rfl, rfl, rfl, rfl, rfl⟩)
+  · apply Rel.bind H.pre (by apply H.modify; intro st; exact ⟨rfl, rfl, rfl, rfl, rfl, rfl, rfl, fun _ h => h⟩)
     intro _; exact Rel.pure H.pre _
   · simp only
     apply Rel.bind H.pre (rel_logGuards H _ _ _); intro _
